@@ -148,16 +148,17 @@ fn quote_string(s: &str) -> String {
 
     // If the string starts or ends with a quote, use the other quote to delimit
     // the string. Otherwise default to double quotes.
-
-    // TODO: this doesn't cover a string that starts with a single quote and
-    // ends with a double quote; I think in that case it's necessary to escape
-    // the quote. We need to add tests here.
-
     let quote = if s.starts_with('"') || s.ends_with('"') {
         '\''
     } else {
         '"'
     };
+
+    // A string that also starts or ends with that quote (one kind at each end)
+    // cannot be delimited by a run of quotes, so the double quotes are escaped.
+    if s.starts_with(quote) || s.ends_with(quote) {
+        return format!("\"{}\"", s.replace('"', "\\\""));
+    }
 
     // When string contains both single and double quotes find the longest
     // sequence of consecutive quotes, and then use the next highest odd number
